@@ -272,9 +272,33 @@ def track_result(facts, body, site, success_variants=None, start_local=None, boo
     if inner > 0:
         outer = _track_result(facts, body, site, success_variants, start_local, bool_pos, extra_adapters)
         pls = payload_locals(body, outer.locals)
-        if not pls:
-            raise Unrecognised(f"{body.fn}: no success payload extracted from the result at bb{site.bb if site else '?'}")
         tr = Tracked()
+        sv = set(success_variants) if success_variants else SUCCESS_VARIANTS
+        ptags = {}
+        for i, j, s in body.stmts():
+            pl, rv = s[0], s[1]
+            if rv.get('op') == 'discr' and len(pl) == 1:
+                src = rv['pl']
+                if src[0] in outer.locals and outer.locals[src[0]][0] == 'val' and len(src) == 3 \
+                        and src[1] in ('@Continue', '@Ok', '@Some') and isinstance(src[2], str) and src[2].startswith('.0:'):
+                    ptags[pl[0]] = ('discr', rv['adt'], 1, 'val')
+        if ptags and inner == 1:
+            _collect_edges(facts, body, ptags, sv, bool_pos, tr)
+        if inner == 1:
+            for i, blk in enumerate(body.bbs):
+                t = blk['t']
+                if t['t'] == 'switch' and not blk.get('c'):
+                    p = op_place(t['on'])
+                    if p and p[0] in outer.locals and outer.locals[p[0]][0] == 'val' and len(p) == 3 \
+                            and p[1] in ('@Continue', '@Ok', '@Some') and isinstance(p[2], str) and p[2].startswith('.0:'):
+                        for v, b in t['tg']:
+                            (tr.failure if v == 0 else tr.success).add((i, b))
+                        if all(v == 0 for v, b in t['tg']):
+                            tr.success.add((i, t['else']))
+                        elif all(v != 0 for v, b in t['tg']):
+                            tr.failure.add((i, t['else']))
+        if not pls and not tr.success and not tr.failure:
+            raise Unrecognised(f"{body.fn}: no success payload extracted from the result at bb{site.bb if site else '?'}")
         for l in pls:
             t2 = track_result(facts, body, None, success_variants, l, bool_pos, extra_adapters, inner - 1)
             tr.success |= t2.success
@@ -423,6 +447,11 @@ def _track_result(facts, body, site, success_variants=None, start_local=None, bo
                 elif tag[0] == 'poll':
                     tr.passed_to.append((cn, i))
     tr.locals = tags
+    _collect_edges(facts, body, tags, sv, bool_pos, tr)
+    return tr
+
+
+def _collect_edges(facts, body, tags, sv, bool_pos, tr):
     # edges
     for i, blk in enumerate(body.bbs):
         if blk.get('c'):
